@@ -45,6 +45,10 @@ def rand_params(rng: random.Random, cls: str, small: bool = True) -> dict:
                 "min_num_instances": rng.choice([1, 2, 5, 10, 20])}
     if cls == "KSWIN":
         n = rng.choice([4, 6, 10, 16, 24, 40])
+        if rng.random() < 0.2:      # windows of the default size and larger, test samples beyond 50 values (still the exact KS distribution)
+            n = rng.choice([100, 104, 120, 140])
+            return {"alpha": rng.choice([0.005, 0.01, 0.05, 0.2, 0.5]), "min_num_instances": n,
+                    "num_test_instances": rng.choice([30, 50] if n == 100 else [30, 51, 52, rng.randint(51, n // 2)])}
         return {"alpha": rng.choice([0.0001, 0.01, 0.05, 0.2, 0.5]), "min_num_instances": n,
                 "num_test_instances": rng.randint(1, n // 2)}
     if cls == "STEPD":
